@@ -290,7 +290,7 @@ def c04_direct(case, obs):
         txt = _fmt(o)
         if re.search(r"(?<![\w\"])(panic|crash|hang)(?![\w\"])", txt):
             names = {"u": "Unserialize", "v": "Validate", "s": "Serialize", "c": "ValidateCompatibility", "rt": "the round trip",
-                     "x": "Unserialize", "ty": "a typed entry point"}
+                     "x": "Unserialize", "ty": "a typed entry point", "sr": "Serialize / Unserialize of its result"}
             return "%s panicked on a struct-mapped schema: %s" % (names.get(op[0], op[0]), _describe(schema, op))
     return None
 
@@ -382,6 +382,16 @@ def c03_direct(case, obs):
     oo = _obs_ops(obs)
     if oo is None:
         return None
+    # "a one-of value is routed solely by its discriminator": what Serialize of a one-of returns carries the discriminator
+    if _head(schema) == "oneof":
+        field = _s(schema[3])
+        for op, o in zip(ops, oo):
+            w = o if op[0] == "s" else (o[1] if op[0] == "sr" and isinstance(o, list) and len(o) > 1 else None)
+            if isinstance(w, list) and _cls(w) == "ok" and isinstance(w[1], list) and w[1][0] == "m":
+                keys = [_s(e[0][2]) for e in w[1][3:] if isinstance(e[0], list) and e[0][0] == "s"]
+                if field not in keys:
+                    return ("C03: Serialize of a one-of returned %s without the discriminator %r - the value cannot be routed back to "
+                            "its member: %s" % (_fmt(w)[:300], field, _describe(schema, op)))
     byval = {}
     for op, o in zip(ops, oo):
         if op[0] in ("v", "s") and _cls(o) in ("ok", "err"):
@@ -454,13 +464,13 @@ def struct_stats(rows):
         for i, op in enumerate(ops):
             opk[op[0]] = opk.get(op[0], 0) + 1
             o = oo[i] if oo is not None and i < len(oo) else None
-            c = "?" if o is None else (_cls(o[1]) if op[0] in ("rt", "x", "ty") and isinstance(o, list) and len(o) > 1 else _cls(o))
+            c = "?" if o is None else (_cls(o[1]) if op[0] in ("rt", "x", "ty", "sr") and isinstance(o, list) and len(o) > 1 else _cls(o))
             key = "%s:%s" % (op[0], c)
             outcomes[key] = outcomes.get(key, 0) + 1
             # non-trivial: Unserialize produced a struct, or Validate/Serialize looked into a value of the right struct type
             if op[0] in ("rt", "x", "ty") and c == "ok":
                 nt = True
-            if op[0] in ("v", "s") and c in ("ok", "err") and isinstance(op[1], list) and op[1][0] in ("st", "p"):
+            if op[0] in ("v", "s", "sr") and c in ("ok", "err") and isinstance(op[1], list) and op[1][0] in ("st", "p"):
                 nt = True
         if new and nt:
             nontrivial += 1
@@ -504,6 +514,10 @@ def struct_explain(prop):
                     return ("C03: Unserialize returns %s where the object rules (a supplied value is kept, an absent property "
                             "with a default receives its declared default) determine %s: %s"
                             % (_fmt(ou)[:300], _fmt(pu)[:300], _describe(schema, op)))
+            if prop.endswith("C03") and op[0] in ("v", "s", "sr"):
+                return ("C03: %s of a native value gives %s where the key, type, presence and dispatch rules determine %s: %s"
+                        % ({"v": "Validate", "s": "Serialize", "sr": "Serialize, then Unserialize of the result,"}[op[0]],
+                           _fmt(o)[:300], _fmt(p)[:300], _describe(schema, op)))
             if prop.endswith("C04") and re.search(r"panic|crash|hang", _fmt(o)):
                 return "C04: %s on %s" % (_fmt(o)[:100], _describe(schema, op))
         return None
